@@ -68,6 +68,18 @@ CLAIMED = {
   "fault enumeration on the simulated file layer: a fault-free twin run of each generated life-cycle history counts the create/write/lock/close calls, then the history is re-executed once per call ordinal with the fault at that ordinal (EINTR, EAGAIN, three zero-length writes, persistent EIO/ENOSPC, one-off EIO, open EACCES/ENOENT/EMFILE, flock failure, close EIO); the file layer tracks descriptor ownership",
   "For every generated history (storage kind x shape: open-close, open-set-close, start/stop cycles, operations after a failure, close while running) every ordinal of the chosen fault family's call is swept. Oracles: no crash, no unbounded recursion (stack overflow is classified), no hang; after a write failure the device is not Running when the failing append returns; a failed create is reported by start; only descriptors the device opened are written or closed, each closed once, none left open after close, 0-2 never closed.",
   "One fault family per history (all families covered across histories); single-device histories (stale-number collisions between two streams are covered by the ownership tracking, not by a second live stream)."),
+ "C12": ("exploration", "DESIGN.md §4 C12",
+  "seeded input generation riding on the simulated loader: generated library presence, broken-library faults (no entry point, init returns NULL, describe fails) and device tables behind the dl seam; name patterns from a constructive grammar judged by an independent backtracking matcher; arbitrary byte patterns judged for 'error status, never a crash'",
+  "Seeded search over configurations of the six optional driver libraries and over select/get/count/open calls. For constructive patterns (literals with case flips, prefixes/suffixes with .*, alternations, bracket sets, quantifiers) the result must be the first enumerated device of the kind that an independent whole-name, case-insensitive matcher accepts; arbitrary patterns up to 255 bytes, unknown kinds, out-of-range indices, corrupted identifiers and absent libraries must yield an error status. The pattern clause is a pure function of its input (DESIGN §5): the simulation proper contributes the loader/library dimension.",
+  "Bracket sets without ranges; selections are only compared with the matcher when every enumerated entry could be described."),
+ "C17": ("exploration", "DESIGN.md §4 C17",
+  "seeded set/start/get_frame/stop histories on the three real simulated cameras, whose real streamer thread runs on the simulation kernel, under ASan with exact-size caller buffers; reported shape, strides and read-back values compared with a reference model",
+  "Seeded search over camera kind, binning 1/2/4/8 (and rejected values), sample types, shapes incl. the clamping boundaries 8192/binning, offsets, exposures and re-configuration/restart histories, under seeded schedules of the streamer thread; any ASan report in render, binning, copy-out or reallocation is a violation.",
+  "set is issued only while stopped. The bin2 variant is the one /repo's build selects (-mavx2). Pixel values are not judged (the property is about memory safety and shape)."),
+ "C18": ("exploration", "DESIGN.md §4 C18",
+  "deterministic simulation: getter, trigger and stopper threads against the real streamer thread under seeded schedules, stalls and spurious wake-ups, across restarts",
+  "Seeded search over schedules and over the timing of frame, trigger and stop calls. Oracles: strictly increasing hardware ids within a run, the count restarts (bounded by elapsed virtual time over half an exposure), with trigger mode no frame before the first trigger of that run and never more frames than triggers invoked, stop returns and releases a pending frame call within a step budget.",
+  "Frame calls overlapping a stop are exempt from the freshness checks (not from returning); a trigger counts from its invocation."),
 }
 
 NOT_YET = {
